@@ -453,3 +453,93 @@ pub(crate) fn mk_call_req<S>(req: Request<()>, pk: usize, hi: usize, writer: Bod
 pub(crate) fn writer_of<S>(c: &Call<S, ()>) -> BodyWriter {
     c.state.writer
 }
+
+// =====================================================================================
+// C02 — line-atomic resumable head writer (small concrete head, symbolic buffer size)
+// =====================================================================================
+
+const HEAD: &[u8] = b"GET / HTTP/1.1\r\nhost: a\r\n\r\n";
+const LINE_LEN: usize = 16;
+const HEAD_LEN: usize = 27;
+const OUTW: usize = 32;
+
+/// pk: 0 SendLine, 1 SendHeaders(0), 2 SendBody (head complete)
+fn c02_head_writer_case(pk: usize) {
+    let mut ar = ah::mk_amended(Request::new(()));
+    ar.set_header(http::header::HOST, HeaderValue::from_static("a")).unwrap();
+    let mut call: Call<WithoutBody, ()> = Call {
+        request: ar,
+        analyzed: true,
+        state: mk_state_phase(pk, 0, bh::mk_writer_none(), None),
+        _ph: PhantomData,
+    };
+    let out0: [u8; OUTW] = kani::any();
+    let ol = any_le(OUTW);
+    let mut out = out0;
+    let r = call.write(&mut out[..ol]);
+    let start = if pk == 0 { 0 } else if pk == 1 { LINE_LEN } else { HEAD_LEN };
+    let next_line_end = if pk == 0 { LINE_LEN } else { HEAD_LEN };
+    match r {
+        Err(e) => {
+            assert!(matches!(e, Error::OutputOverflow), "C02/only-output-overflow");
+            assert!(pk != 2 && ol < next_line_end - start, "C02/overflow-exactly-when-next-line-does-not-fit");
+            assert!(call.state.phase == mk_state_phase(pk, 0, bh::mk_writer_none(), None).phase, "C02/overflow-has-no-side-effect");
+            core::mem::forget(e);
+        }
+        Ok(n) => {
+            if pk == 2 {
+                assert!(n == 0, "C02/complete-head-emits-nothing-more");
+            } else {
+                assert!(ol >= next_line_end - start, "C02/overflow-exactly-when-next-line-does-not-fit");
+                // whole lines only, as many as fit
+                let all = ol >= HEAD_LEN - start;
+                let expect_n = if all { HEAD_LEN - start } else { LINE_LEN };
+                assert!(n == expect_n, "C02/whole-lines-only-as-many-as-fit");
+                let mut i = 0;
+                while i < OUTW {
+                    if i < n {
+                        assert!(out[i] == HEAD[start + i], "C02/head-bytes-exact");
+                    }
+                    i += 1;
+                }
+                if all {
+                    assert!(call.is_finished(), "C02/head-complete-after-blank-line");
+                } else {
+                    assert!(!call.is_finished(), "C02/head-not-complete-before-blank-line");
+                    assert!(call.state.phase == Phase::SendHeaders(0), "C02/resumes-at-next-header");
+                }
+            }
+        }
+    }
+    kani::cover!(ol == OUTW, "large-buffer");
+    kani::cover!(ol == 0, "empty-buffer");
+    core::mem::forget(call);
+}
+
+//@ props: C02 C01
+//@ tier: quick
+//@ unwind: 8
+//@ unwindset: c02_head_writer_case=34 from_static=4 write_all=4 memcmp=20
+//@ timeout: 2400
+//@ mem: 24
+//@ encodes: Call::<WithoutBody>::write, try_write_prelude, try_write_prelude_part, do_write_send_line, do_write_headers, Writer::try_write rollback, core::fmt (Display of Method / HeaderName, Debug of Version)
+//@ vars: concrete: request GET / HTTP/1.1 with the single effective header host: a; phase concrete per harness (SendLine | SendHeaders(0) | head complete). Symbolic: output buffer size 0..=32 and its prior contents
+//@ bounds: one request line + one header line (27 bytes); every buffer size from 0 to larger than the whole head
+//@ outside: more header lines (the loop body is the same per header), other methods / versions / targets, non-UTF-8 values
+//@ clause: each call emits only whole lines, as many as fit, byte-exact; Err(OutputOverflow) without side effect exactly when not even the next line fits; the blank line is emitted together with the last header; once the head is complete further calls emit nothing
+#[kani::proof]
+fn c02_head_writer_from_line() {
+    c02_head_writer_case(0);
+}
+
+//@ like: c02_head_writer_from_line
+#[kani::proof]
+fn c02_head_writer_from_header() {
+    c02_head_writer_case(1);
+}
+
+//@ like: c02_head_writer_from_line
+#[kani::proof]
+fn c02_head_writer_complete() {
+    c02_head_writer_case(2);
+}
